@@ -972,19 +972,26 @@ def check_decl(run, kind, obj, maxline, decls=(), classes=(), case_extra=None):
     r = roundtrip(obj, maxline, decls, classes)
     case = {'op': 'decl', 'kind': kind, 'maxline': maxline, 'obj': obj_repr(obj),
             'decls': [obj_repr(d) for d in decls], 'classes': [obj_repr(c) for c in classes]}
+    judge(run, kind, obj, r, case, 'decl')
+    return r, case
+
+
+def judge(run, kind, obj, r, case, stage, extra=None):
+    """the property on one round-trip result r (of roundtrip / session_roundtrip); returns #violations added"""
+    n0 = len(run.violations)
+    base = {'stage': stage, 'decl': kind}
+    base.update(extra or {})
     if r.get('tomof_exc'):
-        run.violate({'stage': 'decl', 'decl': kind, 'kind': 'tomof_exception', 'exc': r['tomof_exc'],
-                     'cause': r['cause']}, case, {})
-        return r, case
+        run.violate(dict(base, kind='tomof_exception', exc=r['tomof_exc'], cause=r['cause']), case, {})
+        return 1
     if 'exc' in r:
-        run.violate({'stage': 'decl', 'decl': kind, 'kind': 'recompile_exception', 'exc': r['exc'],
-                     'cause': classify_compile_failure(obj, r)},
+        run.violate(dict(base, kind='recompile_exception', exc=r['exc'], cause=classify_compile_failure(obj, r)),
                     case, {'mof': r['mof'], 'msg': r.get('msg')})
-        return r, case
+        return 1
     asp = aspects(obj, r['compiled'])
     for a in sorted(set(asp)):
         f = a.split(':')
-        sig = {'stage': 'decl', 'decl': kind, 'kind': 'differs', 'where': f[0], 'what': f[1] if len(f) > 1 else ''}
+        sig = dict(base, kind='differs', where=f[0], what=f[1] if len(f) > 1 else '')
         if len(f) > 3:
             sig['type'], sig['how'] = f[2], f[3]
             if sig['how'] == 'char16_literal_text@embedded':
@@ -994,11 +1001,11 @@ def check_decl(run, kind, obj, maxline, decls=(), classes=(), case_extra=None):
         run.violate(sig, case, {'mof': r['mof'], 'compiled': repr(r['compiled'])[:3000]})
     if not asp:
         pe = python_eq(obj, r['compiled'])
-        run.count('decl:%s:python_eq=%s' % (kind, pe))
+        run.count('%s:%s:python_eq=%s' % (stage, kind, pe))
         if pe is not True:
-            run.violate({'stage': 'decl', 'decl': kind, 'kind': 'differs', 'where': kind, 'what': 'python_eq',
-                         'which': str(pe)}, case, {'mof': r['mof'], 'compiled': repr(r['compiled'])[:3000]})
-    return r, case
+            run.violate(dict(base, kind='differs', where=kind, what='python_eq', which=str(pe)), case,
+                        {'mof': r['mof'], 'compiled': repr(r['compiled'])[:3000]})
+    return len(run.violations) - n0
 
 
 def python_eq(orig, got):
@@ -1151,6 +1158,170 @@ def stage2(run):
             run.count('decl:instance:' + p.type + ('[]' if p.is_array else '') + (':null' if p.value is None else ''))
 
 
+# =========================================================================== stage 3: sessions
+
+SESSION_QNAMES = ['Qa', 'Qb', 'Qc']
+SESSION_CNAMES = ['S_a', 'S_b', 'S_c']
+
+
+def gen_session(rng):
+    """a schema-maintenance session on ONE compiler and ONE repository: qualifier declarations and classes are
+    declared, used, RE-declared with another type / array shape / default / flavors / scopes, and used again;
+    every step is a tomof() -> compile round trip.  Returns a list of steps (kind, maxline, object); the expected
+    object of a step is built from the declarations that are current at that step."""
+    cur_q, cur_c = {}, {}
+    steps = []
+    nsteps = rng.randint(4, 10)
+    for i in range(nsteps):
+        r = rng.random()
+        ml = rng.choice([60, 80, 80, 100, rng.randint(50, 120)])
+        if r < 0.40 or not cur_q:
+            name = rng.choice(SESSION_QNAMES)
+            qd = gen_qualdecl(rng, name=name)
+            # usable everywhere, so that the following classes can carry it
+            qd.scopes = dict((k, True) for k in SCOPES) if rng.random() < 0.7 else {'ANY': True}
+            redecl = name in cur_q
+            cur_q[name] = norm_qualdecl(qd)
+            steps.append({'kind': 'qualifierdecl', 'maxline': ml, 'obj': qd, 'redeclared': redecl})
+        elif r < 0.80 or not cur_c:
+            name = rng.choice(SESSION_CNAMES)
+            others = [c for c in cur_c if c != name]
+            sup = rng.choice([None] + others) if others else None
+            cls = gen_class(rng, list(cur_q.values()), name, superclass=sup, refclasses=others)
+            # make sure the current declarations are really used
+            for q in list(cur_q.values()):
+                if rng.random() < 0.6 and q.name not in cls.qualifiers:
+                    cls.qualifiers[q.name] = qualifier_for(rng, q)
+            redecl = name in cur_c
+            # a class must not be re-declared under a class that derives from it; keep it simple: drop dependants
+            if redecl:
+                for c in list(cur_c):
+                    if cur_c[c].superclass and cur_c[c].superclass.lower() == name.lower():
+                        del cur_c[c]
+            cur_c[name] = cls
+            steps.append({'kind': 'class', 'maxline': ml, 'obj': cls, 'redeclared': redecl,
+                          'uses_redeclared': any(st['kind'] == 'qualifierdecl' and st['redeclared'] for st in steps)})
+        else:
+            cls = cur_c[rng.choice(sorted(cur_c))]
+            if cls.superclass:
+                continue        # GetClass(LocalOnly=False) merges inherited properties into the stored class
+            inst = gen_instance(rng, cls)
+            if inst is None:
+                continue
+            steps.append({'kind': 'instance', 'maxline': ml, 'obj': inst, 'redeclared': False})
+    return steps
+
+
+def session_compile(comp, mof):
+    import signal
+    old = signal.signal(signal.SIGALRM, _alarm)
+    signal.setitimer(signal.ITIMER_REAL, COMPILE_TIMEOUT)
+    try:
+        comp.compile_string(mof, NS)
+        return None
+    except CompileTimeout:
+        return {'exc': 'CompileTimeout'}
+    except Exception as e:  # noqa
+        return {'exc': type(e).__name__, 'msg': str(e)[:300]}
+    finally:
+        signal.setitimer(signal.ITIMER_REAL, 0)
+        signal.signal(signal.SIGALRM, old)
+
+
+def run_session(run, steps, record=True):
+    """execute the steps on a fresh MOFCompiler/MOFWBEMConnection(conn=None); judge every step; stop at the first
+    step that violates the property (later steps would start from an unknown repository state).
+    Returns (#steps executed, index of the violating step or None)."""
+    import pywbem
+    from pywbem._mof_compiler import MOFCompiler, MOFWBEMConnection
+    conn = MOFWBEMConnection(conn=None)
+    comp = MOFCompiler(conn, verbose=False, log_func=None)
+    for i, st in enumerate(steps):
+        obj, kind = st['obj'], st['kind']
+        try:
+            mof = obj.tomof(st['maxline'])
+            r = {'mof': mof}
+        except Exception as e:  # noqa
+            cause = 'other'
+            if isinstance(e, ValueError):
+                try:
+                    obj.tomof(st['maxline'] + 60)
+                    cause = 'literal_wider_than_line'
+                except Exception:  # noqa
+                    pass
+            r = {'mof': None, 'tomof_exc': type(e).__name__, 'cause': cause}
+        if r['mof'] is not None:
+            err = session_compile(comp, r['mof'])
+            if err:
+                r.update(err)
+            elif kind == 'qualifierdecl':
+                r['compiled'] = conn.qualifiers.get(NS, {}).get(obj.name)
+            elif kind == 'class':
+                r['compiled'] = conn.classes.get(NS, {}).get(obj.classname)
+            else:
+                insts = conn.instances.get(NS, [])
+                r['compiled'] = insts[-1] if insts else None
+        case = {'op': 'session', 'steps': [{'kind': x['kind'], 'maxline': x['maxline'], 'obj': obj_repr(x['obj']),
+                                            'redeclared': x.get('redeclared', False)} for x in steps[:i + 1]]}
+        extra = {'redeclared': bool(st.get('redeclared')), 'after_redeclaration':
+                 any(x['kind'] != 'instance' and x.get('redeclared') for x in steps[:i])}
+        nv = judge(run, kind, obj, r, case, 'session', extra)
+        if nv and any(not is_known(v['sig']) for v in run.violations[-nv:]):
+            return i + 1, i
+        if 'exc' in r or r.get('tomof_exc'):
+            return i + 1, None          # known finding, but the step did not take effect: stop the session
+    return len(steps), None
+
+
+_KNOWN = None
+
+
+def is_known(sig):
+    global _KNOWN
+    if _KNOWN is None:
+        _KNOWN = common.load_known_all()
+    return any(common.matches(f, PROP, sig) for f in _KNOWN)
+
+
+def stage3(run):
+    rng = run.rng
+    n = 1500 if run.thorough else 160
+    for _ in range(n):
+        steps = gen_session(rng)
+        if not steps:
+            continue
+        n0 = len(run.violations)
+        done, bad = run_session(run, steps)
+        run.case({'op': 'session', 'steps': [(x['kind'], x.get('redeclared', False)) for x in steps],
+                  'first': obj_repr(steps[0]['obj'])[:64]},
+                 nontrivial=any(x.get('redeclared') for x in steps[:done]))
+        for x in steps[:done]:
+            run.count('session:%s%s' % (x['kind'], ':redeclared' if x.get('redeclared') else ''))
+        if bad is not None:
+            # shrink: drop earlier steps as long as the last step still violates the property
+            vio = [v for v in run.violations[n0:] if not is_known(v['sig'])]
+            want = json.dumps(vio[0]['sig'], sort_keys=True)
+            last = steps[bad]
+
+            def still_fails(sub):
+                rr = common.Run(PROP, 'quick', 0)
+                d, b = run_session(rr, list(sub) + [last])
+                return b == len(sub) and any(json.dumps(v['sig'], sort_keys=True) == want for v in rr.violations)
+            pre = steps[:bad]
+            if pre and still_fails([]):
+                pre = []
+            elif len(pre) >= 2:
+                pre = common.shrink_list(pre, still_fails, max_rounds=30)
+            rr = common.Run(PROP, 'quick', 0)
+            run_session(rr, pre + [last])
+            small = [v for v in rr.violations if json.dumps(v['sig'], sort_keys=True) == want]
+            if small:
+                # replace the recorded (long) cases of this session by the shrunk one
+                keep = [v for v in run.violations[n0:] if is_known(v['sig'])]
+                del run.violations[n0:]
+                run.violations.extend(keep + small)
+
+
 # =========================================================================== entry points
 
 def run(run):
@@ -1165,7 +1336,11 @@ def run(run):
                 'parameter, references, arrays with sizes, defaults, embedded instance/object properties, '
                 'superclass) and instances (every type, NULL, NULL array items, references, embedded instances) '
                 'x maxline 40..120 -> tomof() -> real MOFCompiler on MOFWBEMConnection(conn=None) seeded with the '
-                'needed declarations -> compared aspect by aspect and with ==.')
+                'needed declarations -> compared aspect by aspect and with ==. stage 3: sessions of 4..10 round trips on '
+                'ONE compiler and repository in which qualifier declarations and classes are re-declared with other '
+                'type/array shape/default/flavors/scopes between the steps and then used by later classes and '
+                'instances; each recompiled object is compared with its original; a session is non-trivial when '
+                'something was re-declared; a violating session is shrunk by dropping earlier steps.')
     run.assumptions += ['PLY lexer/LALR driver and tables: the per-token regexes for string/char literals are hand-modelled; '
                         'token dispatch, the grammar and everything at declaration level are NOT modelled (stage 2 is '
                         'decided by the differential oracle only: C08 is partial there)',
@@ -1179,6 +1354,7 @@ def run(run):
     stage1_numbers(run)
     stage1_arrays(run)
     stage2(run)
+    stage3(run)
 
 
 def search(run):
@@ -1233,8 +1409,9 @@ def search(run):
                         {'op': 'mofstr', **c}, real)
         if i % 2000 == 0 and flush():
             return run.violations[before:]
-    # 4. declarations
+    # 4. declarations, sessions
     stage2(sub)
+    stage3(sub)
     flush()
     return run.violations[before:]
 
@@ -1257,6 +1434,13 @@ def replay(payload):
         shown = real_strarray(m)
         if 'exc' in shown or shown['ok'] != [common.cps(x) for x in case['v']]:
             r.violate({'stage': 'string', 'kind': 'value_differs', 'where': 'value_tomof_array'}, case, shown)
+    elif case.get('op') == 'session':
+        steps = [{'kind': x['kind'], 'maxline': x['maxline'], 'obj': obj_load(x['obj']),
+                  'redeclared': x.get('redeclared', False)} for x in case['steps']]
+        run_session(r, steps)
+        r.violations[:] = [v for v in r.violations if not is_known(v['sig'])]
+        shown = {'steps': [(x['kind'], x['obj'].tomof(x['maxline'])) for x in steps][-4:],
+                 'observed': (r.violations[0]['observed'] if r.violations else None)}
     elif case.get('op') == 'decl':
         obj = obj_load(case['obj'])
         decls = [obj_load(x) for x in case['decls']]
